@@ -41,39 +41,48 @@ func newRng(seed uint64) *rand.Rand { return rand.New(rand.NewPCG(seed, 0x9e3779
 // bubbleEpoch is the fake clock's origin inside every synctest bubble.
 var bubbleEpoch = time.Date(2000, 1, 1, 0, 0, 0, 0, time.UTC)
 
-// ExecScript runs one script inside its own bubble and returns the report.
+// Runtime gives arms access to fresh synctest bubbles (one per node incarnation with its own wall clock).
+type Runtime struct {
+	t     *testing.T
+	Infra string
+}
+
+// Bubble runs fn inside a new bubble whose wall clock starts at bubbleEpoch + offsetS seconds.
+func (rt *Runtime) Bubble(offsetS int64, fn func()) {
+	defer func() {
+		if x := recover(); x != nil {
+			msg := fmt.Sprint(x)
+			if strings.Contains(msg, "deadlock: main bubble goroutine has exited") {
+				return
+			}
+			rt.Infra = fmt.Sprintf("panic outside ABCI capture: %v\n%s", x, debug.Stack())
+		}
+	}()
+	synctest.Test(rt.t, func(t *testing.T) {
+		defer func() {
+			if x := recover(); x != nil {
+				rt.Infra = fmt.Sprintf("harness panic: %v\n%s", x, debug.Stack())
+			}
+		}()
+		if offsetS > 0 {
+			time.Sleep(time.Duration(offsetS) * time.Second)
+		}
+		fn()
+	})
+}
+
+// ExecScript runs one script (each node incarnation in its own bubble) and returns the report.
 func ExecScript(t *testing.T, prop string, s *Script, keepLog bool) (rep *RunReport) {
 	arm := Arms[prop]
 	r := NewRunCtx(prop, s.Seed)
 	r.Script = s
 	r.KeepLog = keepLog
 	start := time.Now()
-	var infra string
-	func() {
-		defer func() {
-			if x := recover(); x != nil {
-				msg := fmt.Sprint(x)
-				if strings.Contains(msg, "deadlock: main bubble goroutine has exited") {
-					return
-				}
-				infra = fmt.Sprintf("panic outside ABCI capture: %v\n%s", x, debug.Stack())
-			}
-		}()
-		synctest.Test(t, func(t *testing.T) {
-			defer func() {
-				if x := recover(); x != nil {
-					infra = fmt.Sprintf("harness panic: %v\n%s", x, debug.Stack())
-				}
-			}()
-			if s.WallOffsetS > 0 {
-				time.Sleep(time.Duration(s.WallOffsetS) * time.Second)
-			}
-			arm.Run(r, s)
-		})
-	}()
+	rt := &Runtime{t: t}
+	arm.Run(rt, r, s)
 	rep = r.Report()
 	rep.WallMs = time.Since(start).Milliseconds()
-	rep.Infra = infra
+	rep.Infra = rt.Infra
 	if keepLog {
 		for _, l := range r.LogLines {
 			fmt.Println(l)
